@@ -15,8 +15,8 @@ Ltac step_cases H :=
   inversion H; subst; clear H.
 Ltac norm :=
   repeat rewrite ?getc_set_pc, ?getc_set_caller in *;
-  unfold getc, set_pc, add_tables, mk_req, mk_ack in *; cbn [callers rx lock last_id seqno salt table hints wire_in elog store rets closed
-       set_caller set_rx set_lock set_last set_tables set_in log set_salt add_ret set_closed send
+  unfold getc, set_pc, add_tables, mk_req, mk_ack in *; cbn [callers rx lock last_id seqno salt table hints wire_in elog store rets closed srv_log
+       set_caller set_rx set_lock set_last set_tables set_in log set_salt add_ret set_closed push_srv send
        c_pc c_hint c_k w_id w_seq w_salt w_kind wire] in *;
   repeat rewrite ?nth_setl in *.
 Ltac eqt := match goal with
